@@ -39,11 +39,13 @@ import (
 )
 
 type c20Run struct {
-	o       *vOut
-	wedged  atomic.Bool
-	calls   atomic.Int64
-	mu      sync.Mutex
-	perKind map[string]int
+	hotHits  atomic.Int64
+	maxDests atomic.Int64
+	o        *vOut
+	wedged   atomic.Bool
+	calls    atomic.Int64
+	mu       sync.Mutex
+	perKind  map[string]int
 }
 
 // fail is o.fail made safe for concurrent workers
@@ -134,9 +136,14 @@ func c20PeerReq(addr netip.Addr, as uint32, rsClient bool) *api.AddPeerRequest {
 	}}
 }
 
+var c20HotPrefix = netip.MustParsePrefix("10.99.0.0/24")
+
 func c20Update(rng *vRand, as uint32, nh netip.Addr) *bgp.BGPMessage {
 	mk := func() bgp.PathNLRI {
 		p := netip.PrefixFrom(netip.AddrFrom4([4]byte{10, byte(20 + rng.intn(4)), byte(rng.intn(8)), 0}), 24)
+		if rng.chance(35) {
+			p = c20HotPrefix // every peer keeps announcing / withdrawing ONE prefix: writers and readers meet on it
+		}
 		n, _ := bgp.NewIPAddrPrefix(p)
 		return bgp.PathNLRI{NLRI: n}
 	}
@@ -166,7 +173,11 @@ func c20SessionUp(s *BgpServer, p *peer) {
 	}
 	p.fsm.capMap = map[bgp.BGPCapabilityCode][]bgp.ParameterCapabilityInterface{bgp.BGP_CAP_ROUTE_REFRESH: {bgp.NewCapRouteRefresh()}}
 	p.fsm.lock.Unlock()
-	p.fsm.familyMap.Store(map[bgp.Family]bgp.BGPAddPathMode{bgp.RF_IPv4_UC: bgp.BGP_ADD_PATH_NONE})
+	mode := bgp.BGP_ADD_PATH_NONE
+	if len(conf.AfiSafis) > 0 && conf.AfiSafis[0].AddPaths.Config.SendMax > 0 {
+		mode = bgp.BGP_ADD_PATH_SEND
+	}
+	p.fsm.familyMap.Store(map[bgp.Family]bgp.BGPAddPathMode{bgp.RF_IPv4_UC: mode})
 	s.handleFSMMessage(p, &fsmMsg{MsgType: fsmMsgStateChange, MsgData: bgp.BGP_FSM_ESTABLISHED,
 		StateReason: newfsmStateReason(fsmOpenMsgNegotiated, nil, nil), timestamp: time.Now()})
 	p.fsm.state.Store(bgp.BGP_FSM_ESTABLISHED)
@@ -204,6 +215,9 @@ func (r *c20Run) scenario(procs int, dur time.Duration, seed uint64) {
 			as = 65001 // two iBGP peers
 		}
 		req := c20PeerReq(addrs[i], as, false)
+		if i >= 4 { // two peers negotiate ADD-PATH send (send-max 2): withdrawals go through promoteSendMaxFiltered
+			req.Peer.AfiSafis[0].AddPaths = &api.AddPaths{Config: &api.AddPathsConfig{SendMax: 2}}
+		}
 		r.do("AddPeer", func() error { return s.AddPeer(ctx, req) })
 		i := i
 		r.do("lookup", func() error {
@@ -384,6 +398,59 @@ func (r *c20Run) scenario(procs int, dur time.Duration, seed uint64) {
 		r.do("DeleteVrf", func() error { return s.DeleteVrf(ctx, &api.DeleteVrfRequest{Name: name}) })
 	})
 
+	// readers of table state handed out of the shard locks, exactly as the callers in pkg/server use it
+	// (filterpath / rtcVPNCandidates / propagateUpdateToNeighbors / ListPath / MRT dump): no lock held
+	// while the result is read, writers (the FSM workers above) keep updating the same prefixes.
+	for id := 107; id <= 108; id++ {
+		worker(id, func(rng *vRand) {
+			touch := func(l []*table.Path) int {
+				n := 0
+				for _, p := range l {
+					if p != nil && !p.IsWithdraw {
+						n++
+					}
+				}
+				return n
+			}
+			r.do("table-readers", func() error {
+				n, _ := bgp.NewIPAddrPrefix(c20HotPrefix)
+				hot := table.NewPath(bgp.RF_IPv4_UC, nil, bgp.PathNLRI{NLRI: n}, true, nil, time.Now(), false) // lookup key only
+				for i := 0; i < 20; i++ {
+					if d := s.globalRib.GetDestination(hot); d != nil {
+						r.hotHits.Add(1)
+						touch(d.GetKnownPathList(table.GLOBAL_RIB_NAME, 0))
+						_ = d.GetBestPath(table.GLOBAL_RIB_NAME, 0)
+						touch(d.GetAllKnownPathList())
+						touch(d.GetMultiBestPath(table.GLOBAL_RIB_NAME))
+					}
+				}
+				if tbl, ok := s.globalRib.GetTable(bgp.RF_IPv4_UC); ok {
+					if nd := int64(len(tbl.GetDestinations())); nd > r.maxDests.Load() {
+						r.maxDests.Store(nd)
+					}
+					for _, d := range tbl.GetDestinations() {
+						touch(d.GetAllKnownPathList())
+					}
+					if ds, err := tbl.GetLongerPrefixDestinations("10.99.0.0/16"); err == nil {
+						for _, d := range ds {
+							touch(d.GetKnownPathList(table.GLOBAL_RIB_NAME, 0))
+						}
+					}
+					if d := tbl.SelectDestination(n, table.DestinationSelectOption{ID: table.GLOBAL_RIB_NAME}); d != nil {
+						touch(d.GetAllKnownPathList())
+					}
+				}
+				for _, l := range s.globalRib.GetBestMultiPathList(table.GLOBAL_RIB_NAME, []bgp.Family{bgp.RF_IPv4_UC}) {
+					touch(l)
+				}
+				touch(s.globalRib.GetPathList(table.GLOBAL_RIB_NAME, 0, []bgp.Family{bgp.RF_IPv4_UC}))
+				touch(s.globalRib.GetBestPathList(table.GLOBAL_RIB_NAME, 0, []bgp.Family{bgp.RF_IPv4_UC}))
+				return nil
+			})
+			time.Sleep(time.Millisecond)
+		})
+	}
+
 	time.Sleep(dur)
 	close(stop)
 	wgDone := make(chan struct{})
@@ -514,9 +581,11 @@ func TestVerifC20Run(t *testing.T) {
 	o.sample(fmt.Sprintf("exploration only: %d calls over GOMAXPROCS %v, %s each, -race; no model answers compared", total, procs, dur))
 }
 
-var c20RaceFrame = regexp.MustCompile(`(?m)^(?:Read|Write|Previous read|Previous write) at .*\n  (\S+)\(\)`)
+var c20RaceAccess = regexp.MustCompile(`(?m)^(?:Read|Write|Previous read|Previous write) at .*\n((?:  \S.*\n      .*\n)+)`)
+var c20RaceFn = regexp.MustCompile(`(?m)^  (\S+)\(\)$`)
 
-// c20Races splits the race detector's reports and keys them by the two racing functions
+// c20Races splits the race detector's reports and keys them by the two racing functions (the first
+// frame of each access that is not in package runtime)
 func c20Races(out string) map[string]string {
 	res := map[string]string{}
 	for _, b := range strings.Split(out, "==================") {
@@ -524,12 +593,27 @@ func c20Races(out string) map[string]string {
 			continue
 		}
 		var fns []string
-		for _, m := range c20RaceFrame.FindAllStringSubmatch(b, -1) {
-			f := m[1]
-			if i := strings.LastIndex(f, "/"); i >= 0 {
-				f = f[i+1:]
+		for _, acc := range c20RaceAccess.FindAllStringSubmatch(b, -1) {
+			pick := ""
+			for _, m := range c20RaceFn.FindAllStringSubmatch(acc[1], -1) {
+				f := m[1]
+				if i := strings.Index(f, "["); i >= 0 { // instantiated generic: keep the function name only
+					f = f[:i]
+				}
+				if i := strings.LastIndex(f, "/"); i >= 0 {
+					f = f[i+1:]
+				}
+				if pick == "" {
+					pick = f
+				}
+				if !strings.HasPrefix(f, "runtime.") {
+					pick = f
+					break
+				}
 			}
-			fns = append(fns, f)
+			if pick != "" {
+				fns = append(fns, pick)
+			}
 		}
 		sort.Strings(fns)
 		sig := strings.Join(fns, "<>")
@@ -554,6 +638,8 @@ func TestVerifC20RunChild(t *testing.T) {
 	dur, _ := time.ParseDuration(os.Getenv("C20_DUR"))
 	r.scenario(procs, dur, o.seed)
 	o.stat("calls_total", int(r.calls.Load()))
+	o.stat("hot_prefix_destination_reads", int(r.hotHits.Load()))
+	o.stat("max_destinations_seen_in_global_rib", int(r.maxDests.Load()))
 	for k, v := range r.perKind {
 		o.stat("call_"+k, v)
 	}
